@@ -93,7 +93,9 @@ class _Selector:
             t = loop._vt + timeout
             if sched and abs(sched[0]._when - t) < 1e-9:
                 t = sched[0]._when
-            loop._vt = max(loop._vt, t)
+            # a busy loop does not wake up for every timer separately: everything that falls due within `quantum` of the next
+            # timer is handled in the same iteration (in time order), as a real loop that was busy for that long would do
+            loop._vt = max(loop._vt, t + loop.quantum)
         return []
 
     def close(self):
@@ -246,6 +248,7 @@ class SimLoop(base_events.BaseEventLoop):
         self.void = False
         self.max_steps = 400_000
         self.max_time = 3600.0
+        self.quantum = 0.0
 
     def time(self):
         return self._vt
@@ -358,9 +361,10 @@ class Sim:
     def __init__(self, net_seed=0, net=None):
         self.loop = SimLoop(self)
         self.net_seed = net_seed
-        self.netcfg = dict(lo=0.001, hi=0.05, tail=0.0, seg=1)
+        self.netcfg = dict(lo=0.001, hi=0.05, tail=0.0, seg=1, quantum=0.0)
         if net:
             self.netcfg.update(net)
+        self.loop.quantum = float(self.netcfg.get("quantum") or 0.0)
         self.listeners = {}
         self.nconn = 0
         self.transports = []
